@@ -30,6 +30,7 @@ class C01(Check):
             subs.append(SubSpace("it/reduced/L/d4", w, ("L",), spaces.IT_REDUCED, 4))
             subs.append(SubSpace("itdata/all-lists<=2/d2", dw, droots, spaces.IT_DATA_OPS, 2))
             subs.append(SubSpace("it/expr/L/d2", w, ("L", "L1"), spaces.EXPR_OPS, 2))
+            subs.append(SubSpace("it/chained-payload/d2", w, ("LC",), spaces.IT_FULL + (("chain", ("LC",)), ("chain", ("LC",), True)), 2))
         else:
             dw, droots = spaces.it_data_world(3)
             subs = [SubSpace("it/full/d3", w, spaces.IT_ROOTS_ALL[1:], spaces.IT_FULL, 3)]
@@ -37,6 +38,7 @@ class C01(Check):
             subs.append(SubSpace("it/reduced/L/d5", w, ("L",), spaces.IT_REDUCED, 5))
             subs.append(SubSpace("itdata/all-lists<=3/d2", dw, droots, spaces.IT_DATA_OPS, 2))
             subs.append(SubSpace("it/expr/L/d3", w, ("L", "L1"), spaces.EXPR_OPS, 3))
+            subs.append(SubSpace("it/chained-payload/d3", w, ("LC",), spaces.IT_FULL + (("chain", ("LC",)), ("chain", ("LC",), True)), 3))
         return subs
 
     def judge(self, tr):
